@@ -252,7 +252,7 @@ def main():
     for kind in ("elastic", "thermal"):
         for et in (["TRI3", "QUAD4"] if args.tier == "quick" else ["TRI3", "QUAD4", "TRI6", "QUAD8"]):
             mods = ["thickness", "rho", "rho-tiny", "translate", "rotate", "symmetry", "coord", "replace"]
-            mods += ["E", "v", "E-tiny-change", "rayleigh"] if kind == "elastic" else ["k", "c", "c-tiny"]
+            mods += ["E", "v", "E-tiny-change", "rayleigh", "rayleigh-off", "E-array-in-place", "rho-array-in-place"] if kind == "elastic" else ["k", "c", "c-tiny", "k-array-in-place", "rho-array-in-place"]
             for mod in mods:
                 cfg = Cfg(kind, et)
                 mesh = gen_mesh(et, 1.0)
@@ -264,8 +264,31 @@ def main():
                     cfg.params["c"] = 4e-9
                     model.c = 4e-9
                 simu.rho = cfg.rho
+                arr_ = None
+                if mod.endswith("array-in-place"):
+                    # a per-element array owned by the caller, edited in place and assigned again (the same object) after a read
+                    pn_ = mod.split("-")[0]
+                    arr_ = np.array([1.0 + 0.25 * (i % 3) for i in range(mesh.Ne)]) * (cfg.params[pn_] if pn_ != "rho" else 1.0)
+                    if pn_ == "rho":
+                        simu.rho = arr_
+                    else:
+                        setattr(model, pn_, arr_)
+                if mod == "rayleigh-off":
+                    simu.Set_Rayleigh_Damping_Coefs(0.25, 0.125)
                 simu.Get_K_C_M_F()
-                if mod in ("E", "v", "thickness", "k", "c"):
+                if arr_ is not None:
+                    arr_ *= 1.5
+                    arr_[0] *= 2.0
+                    if pn_ == "rho":
+                        simu.rho = arr_
+                        cfg.rho = arr_.copy()
+                    else:
+                        setattr(model, pn_, arr_)
+                        cfg.params[pn_] = arr_.copy()
+                elif mod == "rayleigh-off":
+                    cfg.rayleigh = (0.0, 0.0)
+                    simu.Set_Rayleigh_Damping_Coefs(0.0, 0.0)
+                elif mod in ("E", "v", "thickness", "k", "c"):
                     val = dict(E=5.0, v=0.375, thickness=2.0, k=3.5, c=2.5)[mod]
                     setattr(model, mod, val)
                     cfg.params[mod] = val
@@ -374,6 +397,74 @@ def main():
             except Exception as ex:  # noqa: BLE001
                 res.fail(f"replace-after-going-back scenario raises sim={kind}", f"{type(ex).__name__}: {str(ex)[:150]}", ident)
 
+    # ---------------- beams: [read, one modification of the beam model, read] against a model built in the final configuration ----------------
+    from EasyFEA import Mesher as _Mesher, ElemType as _ET
+    from EasyFEA.Geoms import Line as _Line, Point as _Pt, Domain as _Dom
+    for bdim in (2, 3):
+        for timo in (False, True):
+            def bbuild(E=1000.0, v=0.25, yAxis=(0, 1, 0)):
+                sect = _Mesher().Mesh_2D(_Dom(_Pt(), _Pt(0.5, 0.25)))
+                beam = Models.Beam.Isotropic(bdim, _Line(_Pt(0.5, -0.25, 0.0), _Pt(2.5, 1.0, 0.75 if bdim == 3 else 0.0), 1.0), sect, E, v, yAxis)
+                meshb = _Mesher().Mesh_Beams([beam], elemType=_ET.SEG3)
+                return Simulations.Beam(meshb, Models.Beam.BeamStructure([beam]), useTimoshenko=timo), beam
+            for mod in (("E", "v", "yAxis") if bdim == 3 else ("E", "v")):
+                ident = dict(sim="Beam", dim=bdim, timoshenko=timo, modification=mod)
+                try:
+                    sb, beam = bbuild()
+                    sb.Get_K_C_M_F()
+                    if mod == "E":
+                        beam.E = 1500.0
+                        ref = bbuild(E=1500.0)[0]
+                    elif mod == "v":
+                        beam.v = 0.35
+                        ref = bbuild(v=0.35)[0]
+                    else:
+                        beam.yAxis = (0.0, 0.6, 0.8)
+                        ref = bbuild(yAxis=(0.0, 0.6, 0.8))[0]
+                    res.case(("single", "Beam", bdim, timo, mod))
+                    Ks = [A.toarray() for A in sb.Get_K_C_M_F()]
+                    Kf = [A.toarray() for A in ref.Get_K_C_M_F()]
+                    bad = [n for n, a, b in zip("KCMF", Ks, Kf) if a.shape != b.shape or np.abs(a - b).max() > 1e-9 * (1e-300 + np.abs(b).max())]
+                    if bad:
+                        res.fail(f"stale after {mod} sim=Beam", f"[read, beam.{mod} changed, read]: {bad} differ from those of a beam model built in the final configuration", ident)
+                except Exception as ex:  # noqa: BLE001
+                    res.fail("beam modification scenario raises", f"{type(ex).__name__}: {str(ex)[:150]}", ident)
+
+    # ---------------- phase-field: every parameter of the phase-field model invalidates both systems ----------------
+    try:
+        meshr = gen_mesh("TRI3", 0.5)
+        leftr = meshr.Nodes_Conditions(lambda x, y, z: x == 0)
+        rightr = meshr.Nodes_Conditions(lambda x, y, z: x == 2.0)
+
+        def pbuild(Gc=0.5, l0=0.2, split="Amor", reg="AT2"):
+            pfm_ = Models.PhaseField(Models.Elastic.Isotropic(2, E=210.0, v=0.3, planeStress=True, thickness=1.0), split, reg, Gc, l0)
+            return Simulations.PhaseField(meshr, pfm_), pfm_
+        s0_, _ = pbuild()
+        s0_.add_dirichlet(leftr, [0, 0], ["x", "y"])
+        s0_.add_dirichlet(rightr, [0.04], ["x"])
+        s0_.Solve()
+        ur, dr = np.asarray(s0_.displacement).copy(), np.asarray(s0_.damage).copy()
+        for pname, kw, setter in (("Gc", dict(Gc=0.8), lambda m: setattr(m, "Gc", 0.8)), ("l0", dict(l0=0.3), lambda m: setattr(m, "l0", 0.3)),
+                                  ("split", dict(split="Miehe"), lambda m: setattr(m, "split", "Miehe")), ("regularization", dict(reg="AT1"), lambda m: setattr(m, "regularization", "AT1"))):
+            sa, pa = pbuild()
+            sa._Set_solutions("elastic", ur.copy())
+            sa._Set_solutions("damage", dr.copy())
+            sa.Get_K_C_M_F("damage")
+            sa.Get_K_C_M_F("elastic")
+            setter(pa)
+            sr_, _ = pbuild(**kw)
+            sr_._Set_solutions("elastic", ur.copy())
+            sr_._Set_solutions("damage", dr.copy())
+            res.case(("phasefield", "model-parameter", pname))
+            for pt in ("damage", "elastic"):
+                got = [A.toarray() for A in sa.Get_K_C_M_F(pt)]
+                want = [A.toarray() for A in sr_.Get_K_C_M_F(pt)]
+                bad = [n for n, a, b in zip("KCMF", got, want) if a.shape != b.shape or np.abs(a - b).max() > 1e-9 * (1e-300 + np.abs(b).max())]
+                if bad:
+                    res.fail(f"stale phase-field {pt} system after a change of {pname}", f"after phaseFieldModel.{pname} was changed on a loaded state, {bad} of the {pt} problem differ from a fresh simulation in the same state", dict(sim="PhaseField", parameter=pname))
+    except Exception as ex:  # noqa: BLE001
+        res.fail("phase-field model-parameter scenario raises", f"{type(ex).__name__}: {str(ex)[:150]}", dict(sim="PhaseField"))
+
     # ---------------- phase-field: a change of the elastic law invalidates BOTH staggered systems (psi+ enters the damage system) ----------------
     try:
         meshq = gen_mesh("TRI3", 0.5)
@@ -403,7 +494,7 @@ def main():
                     res.fail(f"stale phase-field {pt} system after a change of the elastic law", f"after material.{pname} = {pval} on a loaded state, {bad} of the {pt} problem differ from a fresh simulation in the same state",
                              dict(sim="PhaseField", parameter=pname, value=pval, max_damage=float(dq.max())))
     except Exception as ex:  # noqa: BLE001
-        res.notes.append(f"phase-field elastic-law scenario skipped: {type(ex).__name__}: {str(ex)[:150]}")
+        res.fail("phase-field elastic-law scenario raises", f"{type(ex).__name__}: {str(ex)[:150]}", dict(sim="PhaseField"))
 
     # ---------------- phase-field: restoring an iteration invalidates both staggered systems ----------------
     try:
@@ -436,7 +527,89 @@ def main():
             res.fail("stale phase-field displacement system after Set_Iter", f"after Set_Iter(1) the elastic matrix differs from a fresh simulation in that state by {np.abs(Ku - Kf).max() / np.abs(Kf).max():.3e} (relative)",
                      dict(sim="PhaseField", steps=[0.0, 0.02, 0.05, 0.08], restored=1, max_damage=[float(d.max()) for _, d in states]))
     except Exception as ex:  # noqa: BLE001
-        res.notes.append(f"phase-field Set_Iter scenario skipped: {type(ex).__name__}: {str(ex)[:150]}")
+        res.fail("phase-field Set_Iter scenario raises", f"{type(ex).__name__}: {str(ex)[:150]}", dict(sim="PhaseField"))
+
+    # ---------------- history-dependent material: the elastic law inside a Behavior is changed ----------------
+    # (a) the same Behavior object given to a new simulation must act like a Behavior built with the final parameters (model shared
+    #     between simulations); (b) in the elastic range the tangent read after the change is the one of a fresh simulation
+    try:
+        IE_ = Models.InElastic
+        meshi = gen_mesh("QUAD4", 0.5)
+        lefti = meshi.Nodes_Conditions(lambda x, y, z: x == 0)
+        righti = meshi.Nodes_Conditions(lambda x, y, z: x == 2.0)
+
+        def ibuild(E_, v_, solver_):
+            el_ = Models.Elastic.Isotropic(3, E=E_, v=v_)
+            bh_ = IE_.Behavior(2, el_, yieldSurface=IE_.Yield.VonMises(1.0), hardening=IE_.IsotropicHardening.Linear(20.0), solver=solver_, thickness=1.0)
+            return el_, bh_
+
+        def isolve(bh_, val):
+            si_ = Simulations.InElastic(meshi, bh_)
+            si_.add_dirichlet(lefti, [0.0, 0.0], ["x", "y"])
+            si_.add_dirichlet(righti, [val], ["x"])
+            si_.Solve()
+            return si_
+
+        for solver_ in ("auto", "newton"):
+            for pname, kwf in (("E", dict(E_=250.0, v_=0.3)), ("v", dict(E_=100.0, v_=0.15))):
+                identi = dict(sim="InElastic", local_solver=solver_, parameter=pname)
+                el_, bh_ = ibuild(100.0, 0.3, solver_)
+                s1_ = isolve(bh_, 0.05)                      # past yield: every cached quantity of the behaviour has been used
+                setattr(el_, pname, kwf["E_"] if pname == "E" else kwf["v_"])
+                s2_ = isolve(bh_, 0.05)                      # new simulation, same (modified) behaviour object
+                _, bf_ = ibuild(solver_=solver_, **kwf)
+                s3_ = isolve(bf_, 0.05)                      # behaviour built in the final configuration
+                res.case(("inelastic", "shared-behaviour", solver_, pname))
+                bad = [n for n in ("displacement", "Svm") if np.abs(np.asarray(s2_.Result(n)) - np.asarray(s3_.Result(n))).max() > 1e-7 * (1 + np.abs(np.asarray(s3_.Result(n))).max())]
+                if bad:
+                    res.fail(f"stale behaviour after a change of the elastic law sim=InElastic solver={solver_}",
+                             f"elastic.{pname} changed after a first solve: a simulation using the same Behavior gives {bad} that differ from those of a Behavior built with the final parameters "
+                             f"(max gap {max(np.abs(np.asarray(s2_.Result(n)) - np.asarray(s3_.Result(n))).max() for n in bad):.3e})", identi)
+                # (b) elastic range, same simulation: [solve, read, change, read]
+                el_, bh_ = ibuild(100.0, 0.3, solver_)
+                s4_ = isolve(bh_, 0.0005)
+                s4_.Get_K_C_M_F()
+                setattr(el_, pname, kwf["E_"] if pname == "E" else kwf["v_"])
+                Kgot = s4_.Get_K_C_M_F()[0].toarray()
+                _, bf_ = ibuild(solver_=solver_, **kwf)
+                s5_ = isolve(bf_, 0.0005)
+                s5_._Set_solutions(s5_.problemType, np.asarray(s4_.displacement).copy())
+                s5_.Need_Update()
+                Kwant = s5_.Get_K_C_M_F()[0].toarray()
+                res.case(("inelastic", "tangent-after-change", solver_, pname))
+                if np.abs(Kgot - Kwant).max() > 1e-9 * np.abs(Kwant).max():
+                    res.fail(f"stale tangent after a change of the elastic law sim=InElastic",
+                             f"[solve in the elastic range, read, elastic.{pname} changed, read]: K differs from the one of a simulation built with the final parameters in the same state "
+                             f"(relative gap {np.abs(Kgot - Kwant).max() / np.abs(Kwant).max():.3e})", identi)
+    except Exception as ex:  # noqa: BLE001
+        res.fail("inelastic elastic-law scenario raises", f"{type(ex).__name__}: {str(ex)[:150]}", dict(sim="InElastic"))
+
+    # ---------------- hyperelasticity: a law parameter changed between two solves ----------------
+    try:
+        meshh = gen_mesh("QUAD4", 0.5)
+        lefth = meshh.Nodes_Conditions(lambda x, y, z: x == 0)
+        righth = meshh.Nodes_Conditions(lambda x, y, z: x == 2.0)
+        for lawn, mk_, pname, pval in (("NeoHookean", lambda K=2.0: Models.HyperElastic.NeoHookean(2, K), "K", 3.5),
+                                       ("SaintVenantKirchhoff", lambda lmbda=4.0: Models.HyperElastic.SaintVenantKirchhoff(2, lmbda, 4.0), "lmbda", 7.0)):
+            def hsolve(law_):
+                sh_ = Simulations.HyperElastic(meshh, law_)
+                sh_.add_dirichlet(lefth, [0.0, 0.0], ["x", "y"])
+                sh_.add_dirichlet(righth, [0.1, 0.02], ["x", "y"])
+                sh_.add_surfLoad(meshh.Nodes_Conditions(lambda x, y, z: y == 1.0), [-0.05], ["y"])
+                sh_.Solve()
+                return sh_
+            law_ = mk_()
+            sh1_ = hsolve(law_)
+            setattr(law_, pname, pval)
+            sh1_.Solve()
+            sh2_ = hsolve(mk_(pval))
+            res.case(("hyperelastic", "law-parameter", lawn))
+            gap = np.abs(np.asarray(sh1_.displacement) - np.asarray(sh2_.displacement)).max()
+            if gap > 1e-6 * (1 + np.abs(np.asarray(sh2_.displacement)).max()):
+                res.fail(f"stale after a change of the law sim=HyperElastic law={lawn}", f"[solve, {lawn}.{pname} = {pval}, solve]: the displacement differs from a fresh simulation with the final parameter by {gap:.3e}",
+                         dict(sim="HyperElastic", law=lawn, parameter=pname, value=pval))
+    except Exception as ex:  # noqa: BLE001
+        res.fail("hyperelastic law-parameter scenario raises", f"{type(ex).__name__}: {str(ex)[:150]}", dict(sim="HyperElastic"))
 
     answers = driver.ask(lines)
     if answers is None:
